@@ -5,7 +5,7 @@
 set -e
 FL=${1:-simd}
 REPO=${VERIF_REPO:-/repo}
-OUT=/verif/build/lib-$FL
+OUT=${VERIF_BUILD:-/verif/build}/lib-$FL
 mkdir -p "$OUT"
 exec 9>"$OUT/.lock"; flock 9
 case $FL in
